@@ -885,6 +885,7 @@ static int cell_begin(struct ctx *cx, int phase, const char *fmt, ...)
     SH->cell_no = cx->cell;
     SH->phase = phase;
     SH->cells++;
+    alarm(g_verbose ? 600 : 240);       /* watchdog per cell: a call that does not return */
     if (g_verbose)
         printf("cell %ld: %s\n", cx->cell, SH->desc);
     return 1;
@@ -2065,7 +2066,7 @@ static void do_group(struct ctx *proto, const struct name_ent *ne, long only_cel
                 dup2(fd, 2);
                 close(fd);
             }
-            alarm(g_verbose ? 300 : 150);
+            alarm(g_verbose ? 600 : 240);
             struct ctx cx = *proto;
             cx.ne = ne;
             cx.start_cell = start;
